@@ -620,12 +620,12 @@ func c17Conc(a lib.Args, res *lib.Result) error {
 		quiet := out[at[i]+len(run.Lines)] == "1"
 		verdict := out[at[i]+len(run.Lines)+1]
 		if quiet {
-			res.Histogram["conc:side-condition-of-partial-theorems:holds"]++
+			res.Histogram["conc:quiet-for-the-old-write-through-model:holds"]++
 		} else {
-			res.Histogram["conc:side-condition-of-partial-theorems:violated"]++
+			res.Histogram["conc:quiet-for-the-old-write-through-model:violated"]++
 		}
 		if quiet && verdict != "ok" {
-			res.Fail(lib.Failure{Kind: "property", Signature: "iam:violation-on-quiet-schedule", What: "the schedule satisfies the side condition of Props.C17.lookup_after_ack_partial (quietRunB) and is still rejected by the oracle", Input: sc,
+			res.Fail(lib.Failure{Kind: "property", Signature: "iam:violation-on-quiet-schedule", What: "the schedule is quiet even by the standard of the old write-through model (quietRunB) and is still rejected by the oracle", Input: sc,
 				Impl: strings.Join(run.Obs, " "), Model: strings.Join(mout[1:], " ")})
 		}
 		if verdict != "ok" {
